@@ -294,9 +294,39 @@ def choose_download(rng, world, big=True):
 
 
 # ------------------------------------------------------------------- C02
+def c02_shared_object_witness(res, ctx):
+    """Two servers on the SAME domain: the transfer position lives in the object (CO_OBJ_DOM.Offset), so an upload started on server 1
+    between two segments of a download on server 0 rewinds it. Recorded finding (needs per-server positions: no small repair); the random
+    two-server workloads use distinct objects for this reason."""
+    rng = random.Random(1)
+    world = World(rng, ns=2)
+    sim = S.Sim(ctx["exes"]["asan2"], world.cfg)
+    run = Runner(res, sim, world, "C02")
+    try:
+        o = world.pick(lambda o: o.kind == "dom" and o.writable and 14 <= len(o.data) <= 100)
+        payload = bytes(range(1, 15))
+        m3 = RC.mux(o.idx, o.sub)
+        r = run.step(0, bytes([0x21]) + m3 + (14).to_bytes(4, "little"))
+        r = run.step(0, bytes([0x00]) + payload[:7])
+        r1 = run.step(1, bytes([0x40]) + m3 + bytes(4))                # another client starts reading the same object
+        run.step(1, RC.abort_frame(o.idx, o.sub, 0x08000000))
+        r = run.step(0, bytes([0x11]) + payload[7:])
+        res.evals += 1
+        confirmed = len(r) == 1 and r[0][0] == 0x30
+        act = bytes.fromhex(sim.dump()[world.order.index((o.idx, o.sub))])
+        if confirmed and act[:14] != payload:
+            res.violation("c02/shared-object/offset", "download of 14 bytes to %04x:%02x on server 0 confirmed, an upload of the same object was started on server 1 "
+                          "after the first segment: object holds %s.., transmitted %s" % (o.idx, o.sub, act[:14].hex(), payload.hex()), sim=sim)
+    finally:
+        sim.close()
+    return res
+
+
 def c02_work(item, ctx):
     res = F.Res()
     kind, idx, n = item
+    if kind == "shared":
+        return c02_shared_object_witness(res, ctx)
     two = kind == "two"
     twoh = kind == "twoh"
     exe = ctx["exes"]["asan2" if (two or twoh) else "asan"]
@@ -592,6 +622,7 @@ def for_property(prop):
             items += [("two", i, 12 if q else 30) for i in range(24 if q else 1200)]
             items += [("twoh", i, 12 if q else 30) for i in range(16 if q else 800)]
             items += [("sizes", i, 40 if q else 250) for i in range(16 if q else 32)]
+            items += [("shared", 0, 1)]
             return items
         m.plan = plan
 
